@@ -559,6 +559,94 @@ def masked_body(c):
     return ok(nontrivial=True, key=json.dumps([idiom, mode, list(shape), m.tolist()]), labels=["masked", "idiom=" + idiom, "mode=" + mode], sample=sample)
 
 
+_DISCRETE = []
+
+
+def discrete_table():
+    """(name, form) for every callable of autograd.numpy whose raw-NumPy result on float input is boolean or integer valued (found by probing,
+    not from autograd's own list of non-differentiable functions)."""
+    if _DISCRETE:
+        return _DISCRETE
+    import autograd.numpy as anp
+
+    from ..templates import sweep
+
+    x = onp.array([[0.3, -1.2, 0.7], [1.5, 0.2, -0.4]])
+    forms = {"x": lambda t: (t,), "xy": lambda t: (t, x[::-1] * 1.0), "x1": lambda t: (t, 1), "xv": lambda t: (t.ravel(), onp.array([0.0, 0.5, 1.0])),
+             "x_axis": lambda t: (t, -1)}
+    for name in sorted(dir(anp)):
+        if name.startswith("_") or name in sweep.SKIP:
+            continue
+        f, g = getattr(anp, name, None), getattr(onp, name, None)
+        if g is None or not callable(f) or isinstance(f, type) or isinstance(g, type):
+            continue
+        for form, mk in forms.items():
+            try:
+                with warnings.catch_warnings():
+                    warnings.simplefilter("ignore")
+                    r = g(*mk(x))
+            except Exception:
+                continue
+            if isinstance(r, (tuple, list)) or onp.asarray(r).dtype.kind not in "biu":
+                continue
+            _DISCRETE.append((name, form))
+    return _DISCRETE
+
+
+def discrete_body(c):
+    """Every exported function that is boolean- or integer-valued on float input, called on a traced array inside a differentiated function:
+    it returns a plain value equal to NumPy's (no tracer, no error), and the derivative of the rest of the function is untouched."""
+    import autograd
+    import autograd.numpy as anp
+    from autograd.tracer import isbox
+
+    tab = discrete_table()
+    name, form = tab[c.int(0, len(tab) - 1)]
+    mode = c.choice(["rev", "fwd"])
+    vseed = c.seed()
+    x0 = values.generic(vseed, [(2, 3)], -1.5, 1.5)[0][0]
+    part = x0[::-1] * 1.0
+    args_of = {"x": lambda t: (t,), "xy": lambda t: (t, part), "x1": lambda t: (t, 1), "xv": lambda t: (anp.ravel(t), onp.array([0.0, 0.5, 1.0])), "x_axis": lambda t: (t, -1)}[form]
+    np_args = {"x": (x0,), "xy": (x0, part), "x1": (x0, 1), "xv": (x0.ravel(), onp.array([0.0, 0.5, 1.0])), "x_axis": (x0, -1)}[form]
+    sample = {"function": name, "form": form, "mode": mode, "vseed": vseed}
+    c.features.update(fn=name, form=form, mode=mode)
+    bucket = lambda k: f"C14|discrete|{name}|{k}"
+    try:
+        with warnings.catch_warnings():
+            warnings.simplefilter("ignore")
+            ref = getattr(onp, name)(*np_args)
+    except Exception as e:
+        return Outcome("numpy_rejects", detail=str(e)[:100], sample=sample)
+    seen = {}
+
+    def fun(t):
+        seen["q"] = getattr(anp, name)(*args_of(t))
+        return anp.sum(t * t)
+
+    try:
+        with warnings.catch_warnings():
+            warnings.simplefilter("ignore")
+            if mode == "rev":
+                d = onp.asarray(autograd.grad(fun)(x0))
+                want = 2 * x0
+            else:
+                v = values.direction(vseed, (2, 3), 5)
+                d = onp.asarray(autograd.make_jvp(fun)(x0)(v)[1])
+                want = onp.sum(2 * x0 * v)
+    except Exception as e:
+        if not from_autograd(e):
+            raise
+        return fail("exception_for_constant", f"{name} ({form}, {mode}): " + describe_exc(e), bucket("exception"), sample=sample)
+    q = seen.get("q")
+    if isbox(q):
+        return fail("tracer_leak", f"{name} returned a tracer for an integer / boolean valued result", bucket("box"), sample=sample)
+    if onp.shape(q) != onp.shape(ref) or not onp.array_equal(onp.asarray(q), onp.asarray(ref)):
+        return fail("primal_mismatch", f"{name}: value under differentiation differs from NumPy's", bucket("value"), sample=sample)
+    if not onp.allclose(d, want, rtol=1e-12, atol=1e-12):
+        return fail("wrong_value", f"{name}: the derivative of the rest of the function changed", bucket("derivative"), sample=sample)
+    return ok(nontrivial=True, key=json.dumps([name, form, mode]), labels=["discrete", "mode=" + mode], sample=sample)
+
+
 def finalize(agg):
     """Completeness accounting: which entries of autograd's nograd list have no call template?"""
     import autograd.numpy as anp
@@ -583,6 +671,7 @@ PROP = Prop("C14", [
     Test("constant_programs", const_body, quick=8000, thorough=40000, shard_size=400),
     Test("nograd_set", nograd_body, quick=8000, thorough=40000, shard_size=400),
     Test("masked_branches", masked_body, quick=1500, thorough=10000, shard_size=250),
+    Test("discrete_namespace", discrete_body, quick=1500, thorough=8000, shard_size=250),
 ], RULE, assumptions=[
     "raw NumPy decides local constancy and the reference value/type of every non-differentiable function",
 ], finalize=finalize)
